@@ -581,6 +581,52 @@ def order_test(chk, C):
                      {'path': kind, 'degrees': degs, 'dt': dt0, 'seed_case': it}, expected='order ~3', actual={'errors': errs, 'order': order})
 
 
+def slow_contraction_test(chk, C):
+    """the implicit variant returns the CONVERGED iteration also when the fixed-point iteration contracts slowly (steep potential,
+    large step: tens to hundreds of sweeps).  Oracle: the independent node-by-node iteration, run to the same tolerance"""
+    from pygyro.splines.splines import Spline2D
+    rng = chk.rng
+    done = 0
+    for it in range(chk.n(6, 24)):
+        if done >= chk.n(2, 8):
+            break
+        kind = rng.choice(['cu', 'gu'])
+        degs = (3, 3)
+        bq, br, q, r, phi, interp, fv, omega = build(rng, C, kind, degs, (8, 6), (1.0, 3.0), 'gen', 'smooth')
+        va, vr, lip = drift_stats(phi, q, r, 1.0)
+        fs = Spline2D(bq, br)
+        interp.compute_interpolant(fv, fs)
+        tol = 1e-12
+        pick = None
+        sgn = rng.choice([-1.0, 1.0])
+        for fac in (1.7, 2.4, 3.2, 4.2, 5.5, 7.0, 9.0):
+            dt = sgn * fac / lip
+            out, kinds, margin, feet, sweeps, norms = oracle_step(phi, fs, q, r, dt, 1.0, 0.0, True, C, False, tol)
+            if 50 <= sweeps < IMPL_FUEL and norms and not norms[-1] > tol:
+                pick = (dt, out, kinds, margin, sweeps)
+                break
+        if pick is None:
+            chk.count('test: no slowly contracting step found for this potential')
+            continue
+        dt, out, kinds, margin, sweeps = pick
+        case = {'path': kind, 'dt': dt, 'oracle_sweeps': sweeps, 'tol': tol, 'seed_case': it, 'test': 'slow-contraction'}
+        try:
+            fi = run_real(C, bq, br, q, r, phi, fv, dt, 0.0, True, False, tol, 1.0, timeout=60.0)
+        except Timeout:
+            chk.fail('C12:impl-no-termination', 'implicit iteration did not return within 60 s; the independent implementation converges in %d sweeps' % sweeps, case)
+            continue
+        ok = (kinds == 'spline') & (margin > 1e-6)
+        err = float(np.abs(fi - out)[ok].max()) if ok.any() else 0.0
+        scale = float(np.abs(fv).max())
+        if err > 1e-7 * max(scale, 1.0):
+            i, j = np.unravel_index(int(np.argmax(np.where(ok, np.abs(fi - out), 0.0))), out.shape)
+            chk.fail('C12:impl-not-converged', 'implicit step differs from the converged trapezoid iteration (%d sweeps needed) by %.3g at node (%d,%d)'
+                     % (sweeps, err, i, j), case, expected=float(out[i, j]), actual=float(fi[i, j]))
+        chk.case(('slow', it, kind), nontrivial=True)
+        chk.count('test: slowly contracting implicit steps (%d+ sweeps)' % (50 if sweeps < 100 else 100))
+        done += 1
+
+
 def run(chk):
     from pygyro.initialisation.constants import Constants
     chk.rule = ('cases: (explicit Heun | implicit trapezoid) x (nulEdge | fEq edge) x (uniform-cubic kernels | general kernels degree '
@@ -602,6 +648,7 @@ def run(chk):
         drv.close()
     reuse_cases(chk, C)
     order_test(chk, C)
+    slow_contraction_test(chk, C)
     chk.assumptions = [
         'compute_interpolant is a contract: the model evaluates the coefficients of the real phi spline and of the real interpolant of the old f',
         'both spline paths evaluate the same spline (C07); the cubic-uniform path is evaluated on the equidistant knot vector xmin+dx*(i-3)',
